@@ -1013,11 +1013,13 @@ namespace vg {
         }
 
         // ------------------------------------------------------------------------------------ C07
-        int queue_used() const
+        // octets of the queue taken by the queued writes: at least value + handle + offset, at most what the documentation of
+        // shared_write_queue budgets per element (value + 7)
+        int queue_used( int overhead ) const
         {
             int n = 0;
             for ( auto& e : queue )
-                n += static_cast< int >( e.data.size() ) + 7;
+                n += static_cast< int >( e.data.size() ) + overhead;
             return n;
         }
 
@@ -1069,17 +1071,18 @@ namespace vg {
                     " must be answered with Prepare Queue Full, got ", verif::hex( out ) );
                 return;
             }
-            const int need = static_cast< int >( data.size() ) + 7;
             if ( is_error_code( out, 0x16, 0x09 ) )
             {
-                require( queue_used() + need + 2 > db.queue_size, "c07.room", "Prepare Write of ", data.size(), " bytes rejected with Prepare Queue Full although only ",
-                    queue_used(), " of ", db.queue_size, " bytes of the queue are used" );
+                // must be accepted if there is room even with the documented budget per element
+                require( queue_used( 7 ) + static_cast< int >( data.size() ) + 7 > db.queue_size, "c07.room", "Prepare Write of ", data.size(),
+                    " bytes rejected with Prepare Queue Full although at most ", queue_used( 7 ), " of ", db.queue_size, " bytes of the queue are used" );
                 return;
             }
-            if ( queue_used() + static_cast< int >( data.size() ) + 4 > db.queue_size )
+            if ( queue_used( 4 ) + static_cast< int >( data.size() ) + 4 > db.queue_size )
             {
-                require( is_error( out, 0x16 ), "c07.room", "Prepare Write of ", data.size(), " bytes accepted although the queue (", db.queue_size, ") already holds ",
-                    queue_used(), " bytes" );
+                // handle, offset and value of the queued writes alone do not fit
+                require2( is_error( out, 0x16 ), "c07.room", "c01.queue-overflow", "Prepare Write of ", data.size(), " bytes accepted although the queue (", db.queue_size,
+                    " bytes) already holds at least ", queue_used( 4 ), " bytes" );
                 return;
             }
             bytes exp = in;
